@@ -80,7 +80,8 @@ def main():
         "setup_cmd": "./setup.sh",
         "hooks": {
             "guard": "COTENGRA_VERIF",
-            "enable": "checks export COTENGRA_VERIF=1 before importing cotengra from /repo's working tree (pure python, nothing to build)",
+            "enable": "no hook or instrumentation was added to /repo (source_commits is empty): checks import cotengra from /repo's current working tree (pure python, nothing to build) "
+                      "and observe it from outside (sys.monitoring, shadowed module names, code recompiled from the current source); the guard name is reserved and unused",
             "baseline_off_cmd": BASELINE_OFF,
             "source_commits": hook_commits,
             "add_only": True,
